@@ -16,6 +16,7 @@ REPLAY = os.path.join(P.BUILD, "replay")
 TRUSTED_COMMON = [
     "Verus 0.2026.09.13 (rust_verify + vstd) and its bundled Z3 as the proof checker",
     "the extraction rules R1-R7 of tools/vx-extract are the std definitions they claim to be (DESIGN.md 2.1)",
+    "rule R8: the four raw-pointer statements of Arena::get_node_id are replaced by the trusted primitive vx_slice_position (assumed: Some(i) => i < len and nodes[i] is the referenced node)",
     "rustc's own expansion of the new_iterator! macro (cargo +nightly rustc -Zunpretty=expanded)",
     "panic primitives (assert!/debug_assert*/unreachable!/expect/unwrap/indexing/overflow) are modelled as obligations; "
     "cfg!(debug_assertions) is true under Verus, so the debug build is what is verified",
@@ -324,7 +325,9 @@ def decide(pid, tier, seed):
     mine = [x for x in fails if pid in x["props"]] + [x for x in undischarged if pid in x["props"]]
     kani_cov = {}
     if pid == "C11":
-        # Arena::get_node_id (raw pointers) is outside Verus: bounded Kani harnesses, labelled bounded
+        # Arena::get_node_id: rule R8 brings everything after the raw-pointer idiom under contract (a returned id names the slot that
+        # holds the node and carries that slot's stamp: proved).  That the pointer idiom finds the slot of a node of this arena
+        # (the round trip returns Some) stays with the bounded Kani harnesses, labelled bounded
         kr = P.kani_check(tier)
         bad = [h for h in kr["harnesses"] if h["status"] == "error"]
         if bad:
@@ -337,7 +340,7 @@ def decide(pid, tier, seed):
                                        "one recycling, payload types u8 and u64; quick tier: gni_fresh (debug build) + gni_small_recycled (fixed history, built without "
                                        "debug assertions); thorough tier adds gni_full_recycled and runs all in a debug build",
                                        "harnesses": [{k: h.get(k) for k in ("name", "status", "checks", "debug_assertions")} for h in kr["harnesses"]],
-                                       "wall_s": kr["wall_s"], "what": "get_node_id(arena.get(id)) == Some(id) for fresh and recycled slots"}}
+                                       "wall_s": kr["wall_s"], "what": "get_node_id(arena.get(id)) == Some(id) for fresh and recycled slots (the direction that depends on the raw-pointer idiom replaced by rule R8: a node of this arena is found; the index and stamp of a returned id are proved by Verus)"}}
     mp_cov = {}
     if pid in ("C05", "C12"):
         # the unchecked forms and append_value must panic exactly when the request is impossible,
